@@ -1,9 +1,11 @@
 from __future__ import annotations
 
+import hashlib
 import re
 import sys
 import unicodedata
 from importlib import util
+from pathlib import Path
 from typing import TYPE_CHECKING
 
 import pysbml
@@ -23,7 +25,6 @@ __all__ = ["free_symbols", "import_from_path", "read", "valid_filename"]
 
 if TYPE_CHECKING:
     from collections.abc import Callable
-    from pathlib import Path
 
     from mxlpy.model import Model
 
@@ -120,6 +121,11 @@ def read(file: Path) -> Model:
 
     """
     model = pysbml.load_and_transform_model(file)
-    out_name = valid_filename(file.stem)
+    # One module per document. File names alone aren't unique, and the functions of
+    # a model read earlier keep referring to the source of their module
+    digest = hashlib.sha1(  # noqa: S324
+        str(Path(file).resolve()).encode() + Path(file).read_bytes()
+    ).hexdigest()[:12]
+    out_name = f"{valid_filename(Path(file).stem)}_{digest}"
     model_fn = import_from_path(out_name, _codegen(out_name, model))
     return model_fn()
